@@ -44,12 +44,18 @@ pub fn run(ctx: &mut Ctx, replay: Option<&str>) {
         // the presentation is key-bound: decoys added to the cnf object and to the key object must leave key binding as it is
         for (k, holder) in [crate::keys::KeyId::HolderEc, crate::keys::KeyId::HolderEd, crate::keys::KeyId::HolderEc2].into_iter().enumerate() {
             for st in [Strategy::None, Strategy::Custom(vec!["$.given_name".into()]), Strategy::Custom(vec!["$.address.city".into(), "$.cnf.note".into()])] {
-                let claims = json!({"iss": "https://issuer.example", "exp": now() + 100000, "given_name": "Erika", "address": {"city": "K", "zip": "1"},
+              for with_note in [true, false] {
+                let mut claims = json!({"iss": "https://issuer.example", "exp": now() + 100000, "given_name": "Erika", "address": {"city": "K", "zip": "1"},
                                     "cnf": {"jwk": holder.jwk_json().unwrap(), "note": "user supplied"}});
-                let sel = json!({"given_name": true, "address": {"city": true}, "cnf": {"note": true}});
+                if !with_note {
+                    claims["cnf"].as_object_mut().map(|m| m.remove("note"));
+                }
+                let st = st.clone();
+                let sel = if with_note { json!({"given_name": true, "address": {"city": true}, "cnf": {"note": true}}) } else { json!({"given_name": true, "address": {"city": true}}) };
                 flows.push(Flow { issue: IssueArgs { claims, strategy: st, holder: None, decoy: true, fmt: if k % 2 == 0 { Fmt::Compact } else { Fmt::Json }, key: crate::keys::KeyId::IssuerEc, alg: None, queue: None },
                                   sel: sel.as_object().cloned().unwrap(), kb: Some(KbSetting { key: holder, alg: Some(holder.alg().to_string()), nonce: "n-1".into(), aud: "https://verifier.example".into() }) });
                 ctx.count("stream.user_cnf_with_key_binding");
+              }
             }
         }
     }
